@@ -454,7 +454,7 @@ PsUpdateInds(S, n, ids, lastocc, nextocc) ==
                      num == R * period
                  IN IF lastocc > 0 /\ num % den # 0 THEN Crash(S, "unmodelled:inexact-division")
                     ELSE LET share == IF lastocc > 0 THEN num \div den ELSE 0
-                             left2 == c.left - share
+                             left2 == Max2(c.left - share, 0)     \* remaining work never goes below zero
                              prod == left2 * Max2(nextocc, R)
                          IN IF prod % R # 0 THEN Crash(S, "unmodelled:inexact-division")
                             ELSE PsUpdateInds(SetCu(S, i, [c EXCEPT !.left = left2, !.se = S.now + (prod \div R), !.lupd = S.now]),
